@@ -376,6 +376,8 @@ class Interp:
     def obligate(self, label, goal):
         """Record `pc => goal` as an obligation of the function being verified (e.g. a callee's
         precondition at a modular call site)."""
+        if getattr(self, "no_pre_obligations", False):
+            return  # the callee's precondition is discharged by the caller's own contract elsewhere
         self.side_obligations.append((label, list(self.pc), goal))
 
     def fresh(self, hint, sort):
